@@ -71,6 +71,7 @@ class Interp:
         self.accepted = {}       # slot (src sid, sattr, dst sid, dattr) -> kind info
         self.edges = []          # (src, dst, kind) for the cycle oracle
         self.pairs_touched = set()
+        self.graph_edges = set()
         self.fails = []
         self.stats = dict(mixed_calls=0, cross_group=0, rejected_calls=0, accepted_calls=0)
 
@@ -110,14 +111,33 @@ class Interp:
                 return
             sid = f"S{len(self.sims)}"
             meta = {"api_version": "3.0", "type": typ, "models": {"M": desc}}
+            ents = None
+            if len(o) > 3 and o[3]:
+                # hierarchical entities: a second model N and children of mixed types [N, M] / [M, N]
+                desc2, order = o[3]["desc"], o[3]["order"]
+                masks2 = classify(typ, desc2)
+                if masks2 is not None:
+                    meta["models"]["N"] = dict(desc2, public=False)
+                    meta["mvf_children"] = order
             fac = self.w.start("Meta", sim_id=sid, meta=meta)
             ent = fac.M.create(1)[0]
-            self.sims.append(dict(sid=sid, path=self.path, masks=masks, ent=ent, typ=typ))
+            rec = dict(sid=sid, path=self.path, masks=masks, ent=ent, typ=typ, ents=[(ent, masks)])
+            if "mvf_children" in meta:
+                # the model of every child is taken from the description that was sent, not from the Entity object
+                for ch, cm in zip(ent.children, meta["mvf_children"]):
+                    rec["ents"].append((ch, masks if cm == "M" else masks2))
+            self.sims.append(rec)
         elif k == "connect":
             if len(self.sims) < 1:
                 return
-            src = self.sims[o[1] % len(self.sims)]
-            dst = self.sims[o[2] % len(self.sims)]
+            src = dict(self.sims[o[1] % len(self.sims)])
+            dst = dict(self.sims[o[2] % len(self.sims)])
+            flags_ = o[4]
+            # which entity of the simulator (top-level or a child of another model)
+            se_ = src["ents"][flags_.get("se", 0) % len(src["ents"])]
+            de_ = dst["ents"][flags_.get("de", 0) % len(dst["ents"])]
+            src["ent"], src["masks"] = se_
+            dst["ent"], dst["masks"] = de_
             pairs = [tuple(p) for p in o[3]]
             # the API takes a set of pairs: duplicates collapse
             pairs = list(dict.fromkeys(pairs))
@@ -140,7 +160,7 @@ class Interp:
                     why.append("weak_root")
                 if why:
                     bad[(sa, da)] = why
-            if asyncr and (bad or src is dst):
+            if asyncr and (bad or src["sid"] == dst["sid"]):
                 asyncr = False
             kw = {}
             if shift:
@@ -183,8 +203,10 @@ class Interp:
                     dict(kind=kind, shift=int(shift), persistent=mask_has(p, sa if sa in NAMES else "z"),
                          trigger=mask_has(t, da if da in NAMES else "z")))
                 self.edges.append((src["sid"], dst["sid"], kind))
+                self.graph_edges.add(frozenset((src["ent"].full_id, dst["ent"].full_id)))
             if asyncr:
                 self.edges.append((src["sid"], dst["sid"], "async"))
+                self.graph_edges.add(frozenset((src["ent"].full_id, dst["ent"].full_id)))
             for sa, da in pairs:
                 self.pairs_touched.add((src["sid"], sa, dst["sid"], da))
 
@@ -198,7 +220,7 @@ class Interp:
             return
         groups = {s["sid"]: s["path"] for s in self.sims}
         # entity graph: edges only from accepted pairs / async
-        want_edges = {frozenset((f"{e[0]}.M0", f"{e[1]}.M0")) for e in self.edges}
+        want_edges = set(self.graph_edges)
         got_edges = {frozenset(e) for e in self.w.entity_graph.edges}
         if got_edges - want_edges:
             self.fails.append(Failure("C11.entity_graph", "C11.entity_graph",
@@ -439,14 +461,20 @@ def shard(prop, tier, seed, shard, nshards):
         attrs = draw(st.one_of(st.just(["a", "b", "c"]), st.just(["a", "b"]), sub))
         trig = draw(st.one_of(st.none(), sub)) if typ == "hybrid" else None
         nonp = draw(st.one_of(st.none(), sub)) if typ == "hybrid" else None
-        return ["start", typ, describe(typ, attrs, trig, nonp, draw(st.integers(0, 5)) == 0)]
+        op_ = ["start", typ, describe(typ, attrs, trig, nonp, draw(st.integers(0, 5)) == 0)]
+        if draw(st.integers(0, 2)) == 0:
+            attrs2 = draw(st.one_of(st.just(["a"]), st.just(["b", "c"]), sub))
+            op_.append({"desc": describe(typ, attrs2, None if typ != "hybrid" else draw(st.one_of(st.none(), sub)),
+                                         None, False),
+                        "order": draw(st.sampled_from([["N", "M"], ["M", "N"], ["N"], ["N", "N", "M"]]))})
+        return op_
 
     @st.composite
     def connect_op(draw):
         pairs = draw(st.lists(st.tuples(attr, attr).map(list), min_size=1, max_size=3))
         flags = {"shift": draw(st.sampled_from([0, 0, True, 1, 2])), "weak": draw(st.sampled_from([False, False, True])),
                  "init": draw(st.lists(st.sampled_from([p[0] for p in pairs]), unique=True, max_size=3)),
-                 "async": draw(st.integers(0, 6)) == 0}
+                 "async": draw(st.integers(0, 6)) == 0, "se": draw(st.integers(0, 3)), "de": draw(st.integers(0, 3))}
         return ["connect", draw(st.integers(0, 4)), draw(st.integers(0, 4)), pairs, flags]
 
     op = st.one_of(st.just(["enter"]), st.just(["leave"]), start_op(), start_op(), connect_op(), connect_op(),
